@@ -166,6 +166,7 @@ func runC03(r *core.Run) {
 	bindingSelfTest(r, "Trace_Exif", "Trace_Exif.cfg", &ts, "val", 1, 2) // a value fetched 2 bytes off its place
 	runExifAlign(r)
 	runExifThumb(r, items, rng)
+	runExifDirSize(r)
 	r.Extra["entry_points"] = []string{"imagemeta.Decode", "imagemeta.DecodeTiff", "exif2.Parse", "tiff.ScanTiffHeader+ifdReader.DecodeTiff", "imagemeta.DecodeJPEG", "ifdReader.DecodeIfd"}
 	r.Assumptions = append(r.Assumptions,
 		"forward layouts only (the property's domain); values are in the ranges the reported types can hold; strings are printable without trailing blanks",
@@ -378,4 +379,84 @@ func runExifThumb(r *core.Run, items []exifItem, rng *rand.Rand) {
 		}
 	}
 	r.Extra["thumbnail_directory_runs"] = len(ops)
+}
+
+// runExifDirSize: the all-tags record with each directory padded by unrelated embedded tags to exactly n entries,
+// n up to the documented maximum of 128 (12 * 128 = the size of the reader's scratch buffer). The reported record
+// must be the one of the unpadded file, through the entry points with and without a bufio reader.
+func runExifDirSize(r *core.Run) {
+	var ops []core.Op
+	type dk struct {
+		bo, entry, dir string
+		n              int
+	}
+	var keys []dk
+	sizes := []int{0, 85, 86, 100, 126, 127, 128}
+	for _, bo := range []string{"LE", "BE"} {
+		for _, entry := range []string{"DecodeTiff", "Parse", "DecodePng", "DecodeJPEG"} {
+			for _, dir := range []string{"IFD0", "Exif", "GPS"} {
+				for _, n := range sizes {
+					if n == 0 && dir != "IFD0" {
+						continue
+					}
+					var fill map[string]int
+					if n > 0 {
+						fill = map[string]int{dir: n}
+					}
+					data := gen.BuildFullTIFFFill(rand.New(rand.NewSource(r.Seed)), bo, 8, fill)
+					switch entry {
+					case "DecodePng":
+						data = gen.WrapPNG(data, rand.New(rand.NewSource(r.Seed)), 0)
+					case "DecodeJPEG":
+						data = gen.WrapJPEG(data, rand.New(rand.NewSource(r.Seed)), 0)
+					default:
+						data = append(data, make([]byte, 64)...)
+					}
+					ops = append(ops, core.Op{ID: len(ops), Kind: "call", Data: data, Cut: -1, Args: callArgsJSON(entry)})
+					keys = append(keys, dk{bo, entry, dir, n})
+				}
+			}
+		}
+	}
+	obs, err := core.RunOps(ops, core.WorkerOpts{})
+	if err != nil {
+		r.Machinery("worker: %v", err)
+		return
+	}
+	var base map[string]interface{}
+	for i := range obs {
+		o, op, k := &obs[i], &ops[i], keys[i]
+		desc := map[string]interface{}{"input": fmt.Sprintf("all-tags record (%s), %s padded to %d entries", k.bo, k.dir, k.n), "entry": k.entry}
+		if o.Bad() {
+			r.Violate("exif:dirsize:"+o.BadKind()+"@"+o.Site, fmt.Sprintf("%s %s with %s padded to %d entries: %s%s", k.entry, o.BadKind(), k.dir, k.n, o.Panic, o.Crash), replayOf(op, o, desc))
+			continue
+		}
+		r.Cases++
+		var got struct {
+			F map[string]interface{} `json:"f"`
+		}
+		json.Unmarshal(o.R, &got)
+		if k.n == 0 {
+			if o.Err != "" || len(got.F) == 0 {
+				r.Machinery("directory-size sweep: %s fails on the unpadded all-tags record: %s", k.entry, o.Err)
+				return
+			}
+			base = got.F
+			continue
+		}
+		if o.Err != "" {
+			r.Violate("exif:dirsize:error:"+k.entry, fmt.Sprintf("%s (%s): error %s with %s padded to %d entries by unrelated tags (none without them)", k.entry, k.bo, o.Err, k.dir, k.n), replayOf(op, o, desc))
+			continue
+		}
+		for f, want := range base {
+			if f == "ImageType" {
+				continue
+			}
+			if !reflect.DeepEqual(got.F[f], want) {
+				r.Violate("exif:dirsize:field:"+f+":"+entryGroup(k.entry), fmt.Sprintf("%s (%s): field %s = %v with %s padded to %d entries by unrelated tags, %v without them", k.entry, k.bo, f, got.F[f], k.dir, k.n, want), replayOf(op, o, desc))
+				break
+			}
+		}
+	}
+	r.Extra["directory_size_runs"] = len(ops)
 }
